@@ -172,27 +172,48 @@ def isSubseq {α : Type} [DecidableEq α] : List α → List α → Bool
   | _ :: _, [] => false
   | a :: as, b :: bs => if a = b then isSubseq as bs else isSubseq (a :: as) bs
 
-/-- shape of a block tree: number of children, recursively -/
+/-- shape of a block tree; `lets` are the source names declared directly in the block (only
+filled in for source shapes) -/
 inductive Shape where
-  | node (children : List Shape)
+  | node (lets : List Name) (children : List Shape)
   deriving Repr, Inhabited
 
 partial def Shape.toString : Shape → String
-  | .node cs => "(" ++ " ".intercalate (cs.map Shape.toString) ++ ")"
+  | .node _ cs => "(" ++ " ".intercalate (cs.map Shape.toString) ++ ")"
 
-partial def Block.shape (b : Block) : Shape := .node (b.children.map Block.shape)
+partial def Block.shape (b : Block) : Shape := .node [] (b.children.map Block.shape)
 
 partial def Block.subseqOk (b : Block) : Bool :=
   b.children.all fun c => isSubseq c.context b.context && c.subseqOk
+
+def IfBodyStmt.letsL : List IfBodyStmt → List Name
+  | [] => []
+  | .letB b :: tl => b.name :: IfBodyStmt.letsL tl
+  | _ :: tl => IfBodyStmt.letsL tl
+def IfLoopStmt.letsL : List IfLoopStmt → List Name
+  | [] => []
+  | .letB b :: tl => b.name :: IfLoopStmt.letsL tl
+  | _ :: tl => IfLoopStmt.letsL tl
+def LoopStmt.letsL : List LoopStmt → List Name
+  | [] => []
+  | .letB b :: tl => b.name :: LoopStmt.letsL tl
+  | _ :: tl => LoopStmt.letsL tl
+def BodyStmt.letsL : List BodyStmt → List Name
+  | [] => []
+  | .letB b :: tl => b.name :: BodyStmt.letsL tl
+  | _ :: tl => BodyStmt.letsL tl
+def IfBodies.lets : IfBodies → List Name
+  | .ifb l => IfBodyStmt.letsL l
+  | .loopb l => IfLoopStmt.letsL l
 
 mutual
 /-- children created by an `if` statement in its *enclosing* block: if-body, then else-body or the
 else-if's blocks (with both present only the else body) -/
 def IfStmt.shapes : IfStmt → List Shape
   | .mk _ body els elif =>
-    .node (IfBodies.shapes body) ::
+    .node body.lets (IfBodies.shapes body) ::
       (match els, elif with
-       | some eb, _ => [.node (IfBodies.shapes eb)]
+       | some eb, _ => [.node eb.lets (IfBodies.shapes eb)]
        | none, some ei => IfStmt.shapes ei
        | none, none => [])
 def IfBodies.shapes : IfBodies → List Shape
@@ -201,28 +222,46 @@ def IfBodies.shapes : IfBodies → List Shape
 def IfBodyStmt.shapesL : List IfBodyStmt → List Shape
   | [] => []
   | .ifS i :: tl => IfStmt.shapes i ++ IfBodyStmt.shapesL tl
-  | .loop b :: tl => .node (LoopStmt.shapesL b) :: IfBodyStmt.shapesL tl
+  | .loop b :: tl => .node (LoopStmt.letsL b) (LoopStmt.shapesL b) :: IfBodyStmt.shapesL tl
   | _ :: tl => IfBodyStmt.shapesL tl
 def IfLoopStmt.shapesL : List IfLoopStmt → List Shape
   | [] => []
   | .ifS i :: tl => IfStmt.shapes i ++ IfLoopStmt.shapesL tl
-  | .loop b :: tl => .node (LoopStmt.shapesL b) :: IfLoopStmt.shapesL tl
+  | .loop b :: tl => .node (LoopStmt.letsL b) (LoopStmt.shapesL b) :: IfLoopStmt.shapesL tl
   | _ :: tl => IfLoopStmt.shapesL tl
 def LoopStmt.shapesL : List LoopStmt → List Shape
   | [] => []
   | .ifS i :: tl => IfStmt.shapes i ++ LoopStmt.shapesL tl
-  | .loop b :: tl => .node (LoopStmt.shapesL b) :: LoopStmt.shapesL tl
+  | .loop b :: tl => .node (LoopStmt.letsL b) (LoopStmt.shapesL b) :: LoopStmt.shapesL tl
   | _ :: tl => LoopStmt.shapesL tl
 end
 
 def BodyStmt.shapesL : List BodyStmt → List Shape
   | [] => []
   | .ifS i :: tl => IfStmt.shapes i ++ BodyStmt.shapesL tl
-  | .loop b :: tl => .node (LoopStmt.shapesL b) :: BodyStmt.shapesL tl
+  | .loop b :: tl => .node (LoopStmt.letsL b) (LoopStmt.shapesL b) :: BodyStmt.shapesL tl
   | _ :: tl => BodyStmt.shapesL tl
 
-/-- the nesting of the source function -/
-def FnDecl.sourceShape (f : FnDecl) : Shape := .node (BodyStmt.shapesL f.body)
+/-- the nesting of the source function (root: parameters, then the lets of the body) -/
+def FnDecl.sourceShape (f : FnDecl) : Shape :=
+  .node (f.params.map (·.1) ++ BodyStmt.letsL f.body) (BodyStmt.shapesL f.body)
+
+/-- value records declared directly in a block: declarations of its stack that are in no child's stack -/
+def Block.directDecls (b : Block) : List Value :=
+  (declValues b.context).filter fun v => !(b.children.any fun c => (declValues c.context).contains v)
+
+/-- each block's value table holds exactly the names declared directly in it, bound to their
+latest declaration (for accepted well-formed functions) -/
+partial def valuesOk (sh : Shape) (b : Block) : Bool :=
+  match sh with
+  | .node lets cs =>
+    let decls := b.directDecls
+    let expected := (lets.zip decls).foldl (fun acc (n, v) => assocInsert n v acc) []
+    lets.length == decls.length &&
+    expected.length == b.values.length &&
+    expected.all (fun (n, v) => assocGet n b.values == some v) &&
+    cs.length == b.children.length &&
+    (cs.zip b.children).all fun (s, c) => valuesOk s c
 
 def P_C18_shape (p : Program) (r : Result) (linksOk : Bool) : List String :=
   (if linksOk then [] else ["c18:parent-link-wrong"]) ++
@@ -230,5 +269,9 @@ def P_C18_shape (p : Program) (r : Result) (linksOk : Bool) : List String :=
   ((p.fns.zip r.roots).zipIdx.flatMap fun ((f, b), i) =>
     (if b.shape.toString == f.sourceShape.toString then [] else [s!"c18:fn{i}:tree-shape-differs-from-source-nesting"]) ++
     (if b.subseqOk then [] else [s!"c18:fn{i}:block-stack-not-a-subsequence-of-parent"]))
+
+def P_C18_values (p : Program) (r : Result) : List String :=
+  (p.fns.zip r.roots).zipIdx.flatMap fun ((f, b), i) =>
+    if valuesOk f.sourceShape b then [] else [s!"c18:fn{i}:value-table-differs-from-direct-declarations"]
 
 end SemVerif
